@@ -133,11 +133,17 @@ inductive Lookup where
 def indexBuilds (baseSvma : Nat) (fdes : List Fde) : Bool :=
   fdes.all fun f => baseSvma ≤ f.start ∧ f.start - baseSvma < U32
 
+/-- FDEs that cover at least one address. `DwarfCfiIndex::try_new` skips zero-length FDEs (they
+could shadow a real FDE with the same start); an `.eh_frame_hdr` search table is taken to list
+the FDEs of code that exists (the table is the linker's, a binary search over it needs distinct
+keys). -/
+def liveFdes (fdes : List Fde) : List Fde := fdes.filter fun f => 0 < f.len
+
 /-- Which row (if any) the DWARF data of a module yields for a relative lookup address. -/
 def dwarfLookup (pres : Pres) (fdes : List Fde) (baseSvma rel : Nat) : Lookup :=
   let svma := baseSvma + rel
-  let table := sortByStart fdes
-  if pres ≠ .hdr ∧ !indexBuilds baseSvma fdes then .noData
+  let table := sortByStart (liveFdes fdes)
+  if pres ≠ .hdr ∧ !indexBuilds baseSvma (liveFdes fdes) then .noData
   else if U64 ≤ svma then .failed          -- `base_svma.checked_add(rel)` (a corrupt image base)
   else
     match lastLE svma table with
